@@ -1,10 +1,11 @@
 #!/bin/bash
-# tools/seedbatch.sh <pid> [extra checks comma-separated]  — confirm and run round-2 seeds of one property
+# tools/seedbatch.sh <pid> [extra checks comma-separated] [round dir] [round tag]
+#   confirm and run the seeds of one property delivered under <round dir>/<pid>/out/<k>/ (default: round 3)
 cd "$(dirname "$0")/.."
-P=$1; EXTRA=${2:+,$2}
+P=$1; EXTRA=${2:+,$2}; RD=${3:-/tmp/mut3}; TAG=${4:-r3}
 for k in 1 2 3; do
-  d=/tmp/mut2/$P/out/$k
+  d=$RD/$P/out/$k
   [ -f $d/patch.diff ] || continue
-  echo "== $P-r2-$k"
-  python3 tools/confirm_seed.py $P $d $P-r2-$k --check $P$EXTRA 2>&1 | grep "check\|NOT\|suite\|demo with\|demo without\|applies: False"
+  echo "== $P-$TAG-$k"
+  python3 tools/confirm_seed.py $P $d $P-$TAG-$k --check $P$EXTRA 2>&1 | grep "check\|NOT\|suite\|demo with\|demo without\|applies: False"
 done
